@@ -22,7 +22,6 @@ import (
 	"io/fs"
 	"os"
 	"path/filepath"
-	"runtime"
 	"sort"
 	"strings"
 	"sync"
@@ -537,11 +536,10 @@ func (w *watch) watch(fsw *fsnotify.Watcher, m *sync.Mutex, refresh func() error
 		return
 	}
 
-	eventMask := fsnotify.Rename | fsnotify.Remove | fsnotify.Write
-	// On macOS, we also need to watch for Create events.
-	if runtime.GOOS == "darwin" {
-		eventMask |= fsnotify.Create
-	}
+	// Files hard linked or renamed into a Spec directory from elsewhere, or
+	// created empty only generate a Create event, so we need to watch those
+	// too, on every OS.
+	eventMask := fsnotify.Rename | fsnotify.Remove | fsnotify.Write | fsnotify.Create
 
 	for {
 		select {
